@@ -151,7 +151,7 @@ fn tsan(args: &Args, rep: &mut Report) {
         .env("CARGO_NET_OFFLINE", "true")
         .env("CARGO_TARGET_DIR", harness_dir(args).join("target/tsan"))
         .env("RUSTFLAGS", "-Zsanitizer=thread")
-        .env("TSAN_OPTIONS", "halt_on_error=1 exitcode=66");
+        .env("TSAN_OPTIONS", format!("halt_on_error=1 exitcode=66 suppressions={}", harness_dir(args).join("vh-gen/tsan.supp").display()));
     let out = run_child(&mut cmd, Duration::from_secs(3_000));
     absorb_sanitizer("tsan", 1, out, rep);
 }
